@@ -13,7 +13,7 @@ from .. import runner, sqlnorm as SN
 from ..framework import dir_name, ALL_SCHEMAS, is_v2, schema_tuple
 
 LEVEL = "exploration"
-RULE = ("the finite space: 18 versions x {on disk, temporary} x {m.db, p.db} against all 72 reference dump files "
+RULE = ("the finite space: 18 versions x {on disk, via create_or_load, temporary} x {m.db, p.db} against all 72 reference dump files "
         "(mapped to versions by their Information row; 1.18.0 desktop vs OS by the isExternalTrack column type); every "
         "(version, storage, database file, schema object) comparison counts; distinct by that tuple")
 
@@ -104,6 +104,13 @@ def run(ctx):
             cases.append({"id": "disk%d" % i, "schema": schema, "dir": d, "kind": "disk",
                           "ops": [{"op": "create", "schema": schema, "dir": d}, {"op": "verify"}, {"op": "db_query", "q": "version_name"},
                                   {"op": "release_all"}, {"op": "load", "dir": d}, {"op": "verify"}, {"op": "release_all"}]})
+            # the third way to create: create_or_load_database on an empty directory (every other version with one variable
+            # passed as both the requested and the reported version)
+            d = os.path.join(root, dir_name("w%d" % i, i + 7))
+            os.makedirs(d)
+            cases.append({"id": "col%d" % i, "schema": schema, "dir": d, "kind": "col",
+                          "ops": [{"op": "create_or_load", "schema": schema, "dir": d, "alias": i % 2 == 0}, {"op": "verify"}, {"op": "db_query", "q": "version_name"},
+                                  {"op": "release_all"}, {"op": "load", "dir": d}, {"op": "verify"}, {"op": "release_all"}]})
             cases.append({"id": "temp%d" % i, "schema": schema, "kind": "temp",
                           "ops": [{"op": "create_temporary", "schema": schema}, {"op": "verify"}, {"op": "db_query", "q": "version_name"},
                                   {"op": "rawdump", "checks": False},
@@ -132,7 +139,9 @@ def run(ctx):
                 ctx.violation(f"version-name-wrong {schema}", f"{schema}: version_name() = {ev[2]['ret']!r}", wit)
             v2 = is_v2(schema)
             want_ver = schema_tuple(schema)
-            if c["kind"] == "disk":
+            if c["kind"] == "col" and (ev[0]["ret"].get("created") is not True):
+                ctx.violation(f"create-or-load-did-not-create {schema}", f"{schema}: create_or_load_database on an empty directory reports {ev[0]['ret']}", wit)
+            if c["kind"] in ("disk", "col"):
                 if ev[4]["ret"]["loaded_schema"] != schema or ev[4]["ret"]["version_name"] != schema:
                     ctx.violation(f"not-recognised-on-load {schema}", f"{schema}: loading the created library reports {ev[4]['ret']}", wit)
                 files = {"m": os.path.join(c["dir"], "Database2", "m.db") if v2 else os.path.join(c["dir"], "m.db")}
@@ -147,7 +156,7 @@ def run(ctx):
                         ver = SN.version_of(con)
                         if ver != want_ver:
                             ctx.violation(f"stored-version-wrong {schema} {which}.db", f"{schema}: {which}.db stores version {ver}", wit)
-                        compare(ctx, schema, "disk", which, SN.extract(con), refs, wit)
+                        compare(ctx, schema, "disk" if c["kind"] == "disk" else "create_or_load", which, SN.extract(con), refs, wit)
                     finally:
                         con.close()
             else:
